@@ -47,7 +47,7 @@ def _run_chunks(run, sc, recs, label):
         path.write_text(json.dumps(chunk))
         cfg = write_cfg(sc / f"rbt_{label}_{n}.cfg", init="TInit", next_="TNext",
                         constants={"MaxDepth": 1, "Object": "vector", "PointIdx": {1}, "Octants": {1}, "PartnerIdx": 2,
-                                   "MaxDegree": 2, "Scales": {1, 2, 3, 4, 5, 6, 7}, "AngleFields": True}, invariants=["Stuck"])
+                                   "MaxDegree": 2, "Scales": {1, 2, 3, 4, 5, 6, 7}, "AngleFields": True, "Rotated": True}, invariants=["Stuck"])
         res = run_tlc("RebaseTrace", cfg, sc, workers=2, env={"TRACE_FILE": str(path)}, allow_violation=False, heap_gb=6)
         path.unlink()
         return len(chunk), res
